@@ -26,7 +26,7 @@ import (
 )
 
 var st = stat.New("C09",
-	"Case = one proxy (in a third of the cases two proxy objects for the same object string, used alternately: they share connection and pending-reply table) + scripted server, generated client limits (calls in flight per proxy 1..6 or default, send queue length 1..4 or default), 1..8 steps; step = 1..12 concurrent calls (or one) each with {timeout source: proxy default (TarsSetTimeout) | per-call (current.SetClientTimeout) | context deadline; value 60..600 ms, or (a sixth of the per-call and context ones) 0 or 1 ms - a deadline that is used up when the call starts; two-way or one-way} and a peer behaviour per request from {answer, answer after the deadline, answer in the instant of the deadline, answer twice, reply split in two pieces 5 ms apart, reply split with the second piece after the deadline and after the client's read timeout, silent, close connection now, close in the middle of the response, garbage bytes, illegal length prefix}; between steps the server may stop listening (dials are refused) and come back. Oracle per call: returns (watchdog 20 s), wall clock <= effective deadline + 150 ms + 10% (an overrun is re-measured by re-running the case alone twice; unconfirmed => inconclusive), outcome is reply or error; a call whose complete reply the server had written >= 150 ms before its deadline must succeed when neither this nor the previous step scripts a connection fault. After quiescence (all calls returned, all scripted late replies delivered, +60 ms): the proxy's in-flight counter, the size of the pending-reply tables and the manager's invocation counter are back to 0; a late reply changes no other call's outcome (checked by serial as in C08). Non-trivial = case with >=1 timed-out call, >=1 peer fault and a later successful call. Distinct = distinct case JSON. Peer-stops-reading sub-check: a server that accepts the connection and never reads, requests of 8 or 16 MiB, client send queue of 1..3 requests, queue+3..queue+6 calls (context deadlines 100..300 ms, in sequence or at once, two-way or one-way); oracle: each call returns within deadline + 10% + 150 ms + 25 ms per MiB of payload (re-measured twice), no two-way call succeeds, the counters are back to 0 afterwards. Establishment sub-check: endpoint transport tcp | ssl, a peer that accepts the TCP connection and then is silent | closes after 0..200 ms | sends garbage (so that on ssl the TLS handshake never completes), 1..3 sequential calls with per-call or context timeouts 100..600 ms and a dial timeout of 400 ms; oracle: each call returns (watchdog 20 s) with an error within timeout + dial timeout + 150 ms + 10% (re-measured twice), the counters are back to 0 afterwards.",
+	"Case = one proxy (in a third of the cases two proxy objects for the same object string, used alternately: they share connection and pending-reply table) + scripted server, generated client limits (calls in flight per proxy 1..6 or default, send queue length 1..4 or default), in three eighths of the cases a registered client filter (pre, post, legacy single filter or middleware) that passes calls through except a fifth of them, for which it returns an error (pre/post: beside the call proper; legacy/middleware: instead of invoking it), 1..8 steps; step = 1..12 concurrent calls (or one) each with {timeout source: proxy default (TarsSetTimeout) | per-call (current.SetClientTimeout) | context deadline; value 60..600 ms, or (a sixth of the per-call and context ones) 0 or 1 ms - a deadline that is used up when the call starts; two-way or one-way} and a peer behaviour per request from {answer, answer after the deadline, answer in the instant of the deadline, answer twice, reply split in two pieces 5 ms apart, reply split with the second piece after the deadline and after the client's read timeout, silent, close connection now, close in the middle of the response, garbage bytes, illegal length prefix}; between steps the server may stop listening (dials are refused) and come back. Oracle per call: returns (watchdog 20 s), wall clock <= effective deadline + 150 ms + 10% (an overrun is re-measured by re-running the case alone twice; unconfirmed => inconclusive), outcome is reply or error; a call whose complete reply the server had written >= 150 ms before its deadline must succeed when neither this nor the previous step scripts a connection fault. After quiescence (all calls returned, all scripted late replies delivered, +60 ms): the proxy's in-flight counter, the size of the pending-reply tables and the manager's invocation counter are back to 0; a late reply changes no other call's outcome (checked by serial as in C08). Non-trivial = case with >=1 timed-out call, >=1 peer fault and a later successful call. Distinct = distinct case JSON. Peer-stops-reading sub-check: a server that accepts the connection and never reads, requests of 8 or 16 MiB, client send queue of 1..3 requests, queue+3..queue+6 calls (context deadlines 100..300 ms, in sequence or at once, two-way or one-way); oracle: each call returns within deadline + 10% + 150 ms + 25 ms per MiB of payload (re-measured twice), no two-way call succeeds, the counters are back to 0 afterwards. Establishment sub-check: endpoint transport tcp | ssl, a peer that accepts the TCP connection and then is silent | closes after 0..200 ms | sends garbage (so that on ssl the TLS handshake never completes), 1..3 sequential calls with per-call or context timeouts 100..600 ms and a dial timeout of 400 ms; oracle: each call returns (watchdog 20 s) with an error within timeout + dial timeout + 150 ms + 10% (re-measured twice), the counters are back to 0 afterwards.",
 	"on loopback a connection is established or refused within a millisecond, so the connection-establishment bound of the property contributes nothing to the deadline; black-holed addresses (slow dials) cannot be produced offline",
 	"the per-connection in-flight counter (transport level) is observed and reported as a class, not asserted: the property's state list names the proxy counter, the pending-reply table and the manager counter")
 
@@ -37,6 +37,10 @@ type Call struct {
 	TimeoutMs int    `json:"timeout_ms"`
 	OneWay    bool   `json:"one_way,omitempty"`
 	Peer      string `json:"peer"` // answer | late | silent | close | close-mid | garbage | illegal-len
+	// Reject (cases with a client filter): the filter returns an error for this call - a
+	// pre/post filter after/before the call proper, a legacy filter or a middleware instead
+	// of invoking it
+	Reject bool `json:"reject,omitempty"`
 }
 
 type Step struct {
@@ -55,6 +59,10 @@ type Case struct {
 	// TwoProxies: the calls alternate between two proxy objects created for the same object
 	// string (they share the endpoint manager, the connection and the pending-reply table)
 	TwoProxies bool `json:"two_proxies,omitempty"`
+	// FilterMode: a client filter is registered for the duration of the case - "pre", "post",
+	// "legacy" (RegisterClientFilter) or "middleware"; it passes every call through except
+	// those marked Reject
+	FilterMode string `json:"filter_mode,omitempty"`
 }
 
 func draw(rt *rapid.T) Case {
@@ -64,6 +72,7 @@ func draw(rt *rapid.T) Case {
 		c.ClientQueueLen = rapid.IntRange(1, 4).Draw(rt, "clientQueueLen")
 	}
 	c.TwoProxies = rapid.IntRange(0, 2).Draw(rt, "twoProxies") == 0
+	c.FilterMode = rapid.SampledFrom([]string{"", "", "", "pre", "pre", "post", "legacy", "middleware"}).Draw(rt, "filterMode")
 	ns := rapid.IntRange(1, 8).Draw(rt, "nsteps")
 	listening := true
 	for s := 0; s < ns; s++ {
@@ -81,6 +90,7 @@ func draw(rt *rapid.T) Case {
 				cl.TimeoutMs = c.ProxyTimeoutMs
 			}
 			cl.OneWay = rapid.IntRange(0, 7).Draw(rt, "oneway") == 0
+			cl.Reject = c.FilterMode != "" && rapid.IntRange(0, 4).Draw(rt, "reject") == 0
 			cl.Peer = rapid.SampledFrom([]string{"answer", "answer", "answer", "late", "silent", "close", "close-mid", "garbage", "illegal-len", "split-fast", "split-late", "split-late", "dup", "edge", "edge"}).Draw(rt, "peer")
 			stp.Calls = append(stp.Calls, cl)
 		}
@@ -207,6 +217,51 @@ func runOnce(c Case) verdict {
 		sp2.TarsSetTimeout(c.ProxyTimeoutMs)
 		proxies = append(proxies, sp2)
 	}
+	// client filters (process-wide registry; cases of one process run one after the other)
+	var rejectTok sync.Map
+	rejected := func(msg *tars.Message) bool {
+		b := msg.Req.SBuffer
+		if len(b) < 4 {
+			return false
+		}
+		_, ok := rejectTok.Load(int(binary.BigEndian.Uint32([]byte{byte(b[0]), byte(b[1]), byte(b[2]), byte(b[3])})))
+		return ok
+	}
+	tars.VerifResetFilters()
+	defer tars.VerifResetFilters()
+	errRejected := fmt.Errorf("rejected by the client filter")
+	switch c.FilterMode {
+	case "pre":
+		tars.RegisterPreClientFilter(func(ctx context.Context, msg *tars.Message, invoke tars.Invoke, timeout time.Duration) error {
+			if rejected(msg) {
+				return errRejected
+			}
+			return nil
+		})
+	case "post":
+		tars.RegisterPostClientFilter(func(ctx context.Context, msg *tars.Message, invoke tars.Invoke, timeout time.Duration) error {
+			if rejected(msg) {
+				return errRejected
+			}
+			return nil
+		})
+	case "legacy":
+		tars.RegisterClientFilter(func(ctx context.Context, msg *tars.Message, invoke tars.Invoke, timeout time.Duration) error {
+			if rejected(msg) {
+				return errRejected
+			}
+			return invoke(ctx, msg, timeout)
+		})
+	case "middleware":
+		tars.UseClientFilterMiddleware(func(next tars.ClientFilter) tars.ClientFilter {
+			return func(ctx context.Context, msg *tars.Message, invoke tars.Invoke, timeout time.Duration) error {
+				if rejected(msg) {
+					return errRejected
+				}
+				return next(ctx, msg, invoke, timeout)
+			}
+		})
+	}
 	token := 0
 	maxLate := 0
 	listening := true
@@ -246,6 +301,9 @@ func runOnce(c Case) verdict {
 			tok := token
 			token++
 			plan.Store(tok, cl)
+			if cl.Reject {
+				rejectTok.Store(tok, true)
+			}
 			if cl.Peer == "late" && cl.TimeoutMs+60 > maxLate {
 				maxLate = cl.TimeoutMs + 60
 			}
@@ -453,12 +511,18 @@ func TestC09(t *testing.T) {
 				if cl.TimeoutMs <= 1 {
 					kinds["deadline-used-up-at-start"] = true
 				}
+				if cl.Reject {
+					kinds["rejected-by-client-filter"] = true
+				}
 			}
 			if len(s.Calls) >= 4 {
 				kinds["burst"] = true
 			}
 		}
 		var cls []string
+		if c.FilterMode != "" {
+			cls = append(cls, "client-filter-"+c.FilterMode)
+		}
 		if c.ObjQueueMax > 0 {
 			cls = append(cls, "small-queue-limits")
 		}
